@@ -383,6 +383,54 @@ func genProc(rng *Rng, tier string) []*procCase {
 		c.SleepMs, c.DeadlineMs, c.Cancel = 16000, 0, cmd%2 == 0
 		add(c)
 	}
+	// C3. the request side: request size x plugin reads its stdin or not x a descendant that
+	// inherits stdin (with stdout and stderr) and outlives the plugin x context. The bound on
+	// the return time is the same as for the output pipes: min(deadline, exit) + WaitDelay + slack.
+	fullCross := map[int]bool{0: true, 1 + rng.Intn(4): true}
+	for cmd := 0; cmd < 5; cmd++ {
+		for _, large := range []bool{false, true} {
+			for _, reads := range []bool{true, false} {
+				for _, desc := range []string{"none", "long", "short"} {
+					critical := large && !reads && desc == "long"
+					if !critical && !fullCross[cmd] && tier != "thorough" {
+						continue
+					}
+					for _, cx := range []string{"background", "deadline", "cancel", "far-deadline"} {
+						sz := "small"
+						if large {
+							sz = "large"
+						}
+						rd := "reads"
+						if !reads {
+							rd = "ignores"
+						}
+						c := base("stdin:"+sz+"-request+plugin-"+rd+"-stdin+descendant-"+desc+"+"+cx, cmd)
+						c.Out = validStdout(cmd, c.Name)
+						c.ReqPad = rng.Intn(2000)
+						if large {
+							c.ReqPad = 256*1024 + rng.Intn(768*1024)
+						}
+						c.NoStdin = !reads
+						switch desc {
+						case "long":
+							c.DescMs, c.DescStdin = 16000, true
+						case "short":
+							c.DescMs, c.DescStdin = 600+rng.Intn(400), true
+						}
+						switch cx {
+						case "deadline":
+							c.SleepMs, c.DeadlineMs = 16000, 1200+rng.Intn(500)
+						case "cancel":
+							c.SleepMs, c.DeadlineMs, c.Cancel = 16000, 1200+rng.Intn(500), true
+						case "far-deadline":
+							c.DeadlineMs = 30000
+						}
+						add(c)
+					}
+				}
+			}
+		}
+	}
 	// H. histories: ONE CLIPlugin instance, the plugin changes its behaviour between the calls
 	group := 0
 	type step struct {
